@@ -304,6 +304,15 @@ fn c25_main(args: &Args) -> i32 {
             }
         }
     }
+    // an honest server with an object over the size limit in its state
+    for place in ["snapshot", "delta"] {
+        for excess in [1usize, 2, 3, 64, 3000] {
+            match catch(std::panic::AssertUnwindSafe(|| c25_oversize(&factory, place, excess))) {
+                Ok(r) => rep.absorb(r),
+                Err(msg) => rep.violation(C25, "rrdp/oversize/panic", format!("panic: {msg}"), json!({"place": place, "excess": excess}), json!({"panic": msg})),
+            }
+        }
+    }
     let stray = dbl::stray_requests();
     if !stray.is_empty() { rep.note(C25, "stray_requests", json!(stray.len())); }
     rep.write(args)
@@ -358,6 +367,58 @@ fn c25_rewrite(factory: &Factory, retain_first: usize, fork_at: usize) -> Report
                 "the update is reported successful; the local copy is not the server's state at the notified serial (deltas of the rewritten history were applied to a copy of the old one)".to_string(),
                 ctx, json!({"requests": made, "snapshot_reason": obs.snapshot_reason,
                             "copy": after.as_ref().map(|l| l.objects.iter().map(|(u, b)| (u.clone(), String::from_utf8_lossy(b).into_owned())).collect::<BTreeMap<_, _>>())}));
+        }
+    }
+    rep
+}
+
+/// An honest server whose state really holds an object over the size limit (every listed hash is right; the
+/// oversize faults of the generated histories always come with a hash that vouches for the intact file, so those
+/// updates fail at the hash check whatever the size gate does).  Either the update is not reported successful, or the
+/// copy is the server's state, object for object, the big one in full.  Then the server withdraws the object: the next
+/// update must succeed and reproduce the server again.
+fn c25_oversize(factory: &Factory, place: &str, excess: usize) -> Report {
+    let mut rep = Report::new("rrdp");
+    let rig = Rig::new(factory);
+    let base = rig.srv.rsync_base();
+    rig.srv.set_validators(false, false);
+    let collector = rig.collector(&rig.config());
+    let small: Objects = [(format!("{base}o1.roa"), Bytes::from_static(b"a small object"))].into_iter().collect();
+    let mut with_big = small.clone();
+    with_big.insert(format!("{base}big.bin"), body_of(SMALL_LIMIT as usize + excess, excess as u64));
+    let ctx = json!({"history": "an honest server publishes an object over max-object-size, then withdraws it", "travels_in": place,
+                     "limit": SMALL_LIMIT, "object_size": SMALL_LIMIT as usize + excess});
+    if place == "delta" {
+        rig.srv.publish(small.clone());
+        match client_run(&collector, &rig.ca, &rig.srv, &[]) {
+            Ok(o) if o.updated => {}
+            _ => { rep.divergence(C25, format!("oversize {ctx}: the first update failed")); return rep }
+        }
+    }
+    rig.srv.publish(with_big.clone());
+    let mut later = small.clone();
+    later.insert(format!("{base}o2.roa"), Bytes::from_static(b"another small object"));
+    for (step, want) in [("oversize-published", &with_big), ("oversize-withdrawn", &later)] {
+        if step == "oversize-withdrawn" { rig.srv.publish(later.clone()); }
+        let obs = match client_run(&collector, &rig.ca, &rig.srv, &[]) {
+            Ok(o) => o,
+            Err(e) => { rep.divergence(C25, format!("oversize {ctx}: {e}")); return rep }
+        };
+        let after = rig.read_archive();
+        rep.eval(C25);
+        rep.trace(C25);
+        rep.nontrivial(C25, format!("oversize/{place}/{excess}/{step}"));
+        let sizes = after.as_ref().map(|l| l.objects.iter().map(|(u, b)| (u.clone(), b.len())).collect::<BTreeMap<_, _>>());
+        if obs.updated {
+            if after.as_ref().map(|l| l.objects != *want).unwrap_or(true) {
+                rep.violation(C25, &format!("rrdp/{step}/copy-differs/{place}"),
+                    "the update is reported successful; the local copy is not the server's state at the notified serial".to_string(),
+                    ctx.clone(), json!({"step": step, "copy_sizes": sizes, "server_sizes": want.iter().map(|(u, b)| (u.clone(), b.len())).collect::<BTreeMap<_, _>>()}));
+            }
+        }
+        else if step == "oversize-withdrawn" {
+            // not a violation of C25 (a failure is reported as one), but worth seeing
+            rep.divergence(C25, format!("oversize {ctx}: the server no longer publishes the oversize object, every file is intact, yet the update fails ({:?}, copy {:?})", obs.snapshot_reason, sizes));
         }
     }
     rep
